@@ -15,6 +15,11 @@ from .types import Obj
 from .engine import REG, Unsupported, PRE_ALLOC
 
 
+def ex_birth(o):
+    from .engine import BIRTH
+    return BIRTH(o)
+
+
 class FrameSpec:
     def __init__(self):
         self.whole = set()
@@ -63,6 +68,11 @@ def havoc(ex, st, fs: FrameSpec):
         arr = _key_array(ex, st, k)
         for o, cond in objs:
             row = z3.Const(T.fresh_name("hv.row"), arr.sort().range())
+            from .engine import born_before
+            n1 = ex.advance_time(st)
+            bb = born_before(row, n1) if z3.is_array(row) else (None if row.sort() != Obj else (ex_birth(row) < n1))
+            if bb is not None:
+                st.born.append(bb)
             if not z3.is_true(cond):
                 row = z3.If(cond, row, z3.Select(arr, o))
             arr = z3.Store(arr, o, row)
